@@ -78,6 +78,40 @@ example : (reconnect ⟨true, 0, 1, 4, 0⟩ (fun _ => false) (fun _ => 0) none 5
 theorem negative_wait_possible :
     (reconnect cfgInf (fun _ => false) (fun _ => 0) none 1).waits = [-3/4] := by decide +kernel
 
+/-! ### the back-off grows (session 4) -/
+
+/-- before jitter, the back-off never shrinks from one attempt to the next -/
+theorem base_monotone (hd : 0 ≤ cfg.delay) (k : Nat) :
+    min (cfg.delay * 2 ^ k) cfg.delayMax ≤ min (cfg.delay * 2 ^ (k + 1)) cfg.delayMax := by
+  have hp := pow2_pos k
+  have h0 : 0 ≤ cfg.delay * 2 ^ k := Rat.mul_nonneg hd (by grind)
+  have : cfg.delay * 2 ^ (k + 1) = cfg.delay * 2 ^ k * 2 := by rw [Rat.pow_succ]; grind
+  rw [this, Rat.min_def, Rat.min_def]
+  split <;> split <;> grind
+
+/-- without jitter (`randomization_factor = 0`) successive waits never decrease -/
+theorem waits_monotone_no_jitter (hrf : cfg.rf = 0) (hd : 0 ≤ cfg.delay) (k : Nat) (w w' : Q)
+    (h : (reconnect cfg o r a fuel).waits[k]? = some w)
+    (h' : (reconnect cfg o r a fuel).waits[k+1]? = some w') : w ≤ w' := by
+  rw [delay cfg o r a fuel k w h, delay cfg o r a fuel (k+1) w' h', hrf]
+  have := base_monotone cfg hd k
+  grind
+
+/-- with jitter, a later wait undercuts an earlier one by at most twice the factor -/
+theorem waits_monotone_up_to_jitter (hrf : 0 ≤ cfg.rf) (hd : 0 ≤ cfg.delay) (k : Nat) (w w' : Q)
+    (h : (reconnect cfg o r a fuel).waits[k]? = some w)
+    (h' : (reconnect cfg o r a fuel).waits[k+1]? = some w')
+    (h0 : 0 ≤ r k) (h1 : r k ≤ 1) (h0' : 0 ≤ r (k+1)) (h1' : r (k+1) ≤ 1) :
+    w - 2 * cfg.rf ≤ w' := by
+  have ha := (delay_within cfg o r a fuel k w h hrf h0 h1).2
+  have hb := (delay_within cfg o r a fuel (k+1) w' h' hrf h0' h1').1
+  have := base_monotone cfg hd k
+  grind
+
+-- non-vacuity: the library defaults without jitter, four failures: 1, 2, 4, 5 (capped)
+example : (reconnect ⟨true, 0, 1, 5, 0⟩ (fun _ => false) (fun _ => 1/2) none 4).waits = [1, 2, 4, 5] := by
+  decide +kernel
+
 /-! ### number of attempts -/
 
 /-- A limit `N > 0` is never exceeded. -/
